@@ -59,7 +59,7 @@ def relayout(o, mode, depth=0):
         if mode == 'C' or mode == 'shared':
             return np.ascontiguousarray(o).copy()
         if mode == 'F':
-            return np.asfortranarray(o).copy() if o.ndim > 1 else o.copy()
+            return np.array(o, order='F', copy=True) if o.ndim > 1 else o.copy()
         big = np.zeros(tuple(2 * s for s in o.shape), dtype=o.dtype)
         v = big[tuple(slice(None, None, 2) for _ in o.shape)]
         v[...] = o
